@@ -178,9 +178,66 @@ func idStress(t testing.TB, tr *tracer) {
 // c03Hangs counts histories in which a call did not return.
 var c03Hangs int
 
+// closeDuringWrite: Client.Close (and the receiver's own close of the writer) must not cut a request in two. Goroutines
+// keep sending WRITE requests (header and payload are separate writes, the gap is stretched); another goroutine closes the
+// Client. What the peer has received must still be a sequence of whole frames (the peer logs PBad otherwise).
+func closeDuringWrite(t testing.TB, tr *tracer, round int) {
+	tr.reset(kv{"kind": "closewrite", "round": round})
+	pr := newPeer(t, tr)
+	pr.c2s.afterWrite = func(b []byte) {
+		if len(b) >= 4 && int(uint32(b[0])<<24|uint32(b[1])<<16|uint32(b[2])<<8|uint32(b[3])) > len(b)-4 {
+			time.Sleep(150 * time.Microsecond) // a header whose payload follows in a second write
+		}
+	}
+	cl, err := pr.client(MaxPacketChecked(64))
+	if err != nil {
+		t.Fatalf("client: %v", err)
+	}
+	f, err := cl.OpenFile("/cw", os.O_RDWR)
+	if err != nil {
+		t.Fatalf("open: %v", err)
+	}
+	var wg sync.WaitGroup
+	for g := 0; g < 3; g++ {
+		wg.Add(1)
+		go func(g int) {
+			defer wg.Done()
+			data := bytes.Repeat([]byte{byte('a' + g)}, 40)
+			for k := 0; k < 200; k++ {
+				if _, err := f.WriteAt(data, int64(64*g)); err != nil {
+					return
+				}
+			}
+		}(g)
+	}
+	time.Sleep(time.Duration(300+137*round%900) * time.Microsecond)
+	done := make(chan struct{})
+	go func() { cl.Close(); close(done) }()
+	select {
+	case <-done:
+	case <-time.After(10 * time.Second):
+	}
+	wc := make(chan struct{})
+	go func() { wg.Wait(); close(wc) }()
+	select {
+	case <-wc:
+	case <-time.After(10 * time.Second):
+		pr.c2s.CloseRead()
+		pr.s2c.CloseWrite(io.ErrClosedPipe)
+	}
+	// let the peer's reader reach the end of what the client wrote
+	select {
+	case <-pr.readerDone:
+	case <-time.After(3 * time.Second):
+	}
+}
+
 func TestVerif_OwnReply(t *testing.T) {
 	tr := newTracer(t)
 	idStress(t, tr)
+	for round := 0; round < 40; round++ {
+		closeDuringWrite(t, tr, round)
+	}
 	ids := &chanIDs{}
 	installHook(t, clientHook(tr, ids, nil))
 	nHist := 120
